@@ -39,6 +39,8 @@ var forkPoints = []forkPoint{
 	{nil, 100, "dev"},
 	{&mainnetSchedule, 3000000, "mainnet<002"},
 	{&mainnetSchedule, 3500000, "mainnet>=002"},
+	{&mainnetSchedule, 30000000, "mainnet<014"}, // 012 on (refund heights need no group chain), 014 off: no stake / auth opcodes
+	{&mainnetSchedule, 48081000 - 2, "mainnet@014"},
 	{&mainnetSchedule, 53500000, "mainnet>=015"},
 	{&mainnetSchedule, 55000000, "mainnet>=017"},
 	{&mainnetSchedule, 62000000, "mainnet>=021"},
@@ -100,8 +102,8 @@ type Flags struct {
 
 func (w *World) SetFork(fp forkPoint) {
 	w.applyFork(fp)
-	w.out.Emit(fmt.Sprintf("cfg %d %d %d %d %d %d %d %s", fp.height, b2i(w.flags.P002), b2i(w.flags.P015), b2i(w.flags.P017), b2i(w.flags.P018),
-		b2i(w.flags.P026), b2i(w.flags.P027), fp.label), "ok")
+	w.out.Emit(fmt.Sprintf("cfg %d %d %d %d %d %d %d %d %s", fp.height, b2i(w.flags.P002), b2i(w.flags.P015), b2i(w.flags.P017), b2i(w.flags.P018),
+		b2i(w.flags.P026), b2i(w.flags.P027), b2i(w.flags.P014), fp.label), "ok")
 }
 
 var forkMu sync.Mutex
@@ -203,7 +205,7 @@ func (w *World) refreshFlags(next uint64, prev uint64) {
 	}
 	if nf != w.flags {
 		w.flags = nf
-		w.out.Emit(fmt.Sprintf("cfg %d %d %d %d %d %d %d %s", prev, b2i(nf.P002), b2i(nf.P015), b2i(nf.P017), b2i(nf.P018),
-			b2i(nf.P026), b2i(nf.P027), w.fork.label), "ok")
+		w.out.Emit(fmt.Sprintf("cfg %d %d %d %d %d %d %d %d %s", prev, b2i(nf.P002), b2i(nf.P015), b2i(nf.P017), b2i(nf.P018),
+			b2i(nf.P026), b2i(nf.P027), b2i(nf.P014), w.fork.label), "ok")
 	}
 }
